@@ -11,6 +11,10 @@
 #include <cstdint>
 #include <type_traits>
 
+#ifdef CDNS_VERIF
+namespace cdns_verif { struct Access; }
+#endif
+
 namespace CDNS {
 
     using index_t = uint32_t;
